@@ -205,13 +205,26 @@ def gen_ref(rng, base, kind):
     return [S(float(l) + rng.uniform(-1000, 1000) * e) for l, e in zip(lo, ext)]
 
 
+BIG_K = [250, 1002, 2 ** 31 + 3, 2 ** 40 + 1, -2 ** 33 - 2]
+
+
 def gen_k(rng):
     r = rng.random()
-    if r < 0.8:
+    if r < 0.7:
         return rng.randint(-9, 9)
-    if r < 0.9:
+    if r < 0.8:
         return rng.choice([-103, -102, -101, -100, 100, 101, 102, 103])
-    return rng.choice([-1001, -1000, -999, -998, 998, 999, 1000, 1001])
+    if r < 0.9:
+        return rng.choice([-1001, -1000, -999, -998, 998, 999, 1000, 1001])
+    # the turn is selected by k mod 4 exactly: arbitrarily large counts
+    return rng.choice(BIG_K + [-250, 2 ** 31, -2 ** 31 - 1, 2 ** 32 + 2, 2 ** 53 + 1, -2 ** 62 - 3, 2 ** 63 - 1])
+
+
+def fits(kt, k):
+    if kt == "int":
+        return True
+    info = np.iinfo(getattr(np, kt))
+    return info.min <= k <= info.max
 
 
 KTYPES = ["int8", "int16", "int32", "int64", "uint8", "uint16", "uint32", "uint64"]
@@ -228,29 +241,28 @@ def gen_ktype(rng, k, has_subs, refkind):
         k = 252 + k % 4                       # 252 .. 255
     if kt == "int8" and abs(k) > 127:
         k = (k % 4) + (-128 if k < 0 else 124)
-    if kt in ("int64", "uint64") and not has_subs and rng.random() < 0.4:
-        # beyond 2**31 (the angle k*pi/2 is still accurate to ~1e-6; keep the reference near)
-        k = rng.choice([2 ** 31, 2 ** 32, 2 ** 33]) + rng.randint(0, 7)
+    if kt in ("int64", "uint64") and rng.random() < 0.4:
+        k = rng.choice([2 ** 31, 2 ** 32, 2 ** 33, 2 ** 62]) + rng.randint(0, 7)
         if kt == "int64" and rng.random() < 0.5:
             k = -k
-        if refkind == "far":
-            refkind = "near"
+    if not fits(kt, k):
+        kt = "int64" if fits("int64", k) and rng.random() < 0.6 else "int"
     return kt, k, refkind
 
 
-def make_case(rng, base, level, inplace, a, b, k, refkind, mapkind):
+def make_case(rng, base, level, inplace, a, b, k, refkind, mapkind, ktype=None):
     c = dict(base)
     has_subs = bool(base["subs"])
-    if has_subs:
-        # keep the cos/sin residue below the mesh constructor's absolute alignment tolerance
-        if abs(k) > 9:
-            k = (k % 4) - 4 * rng.randint(0, 2)
-        if refkind == "far":
-            refkind = "near"
-    ktype, k, refkind = gen_ktype(rng, k, has_subs, refkind)
+    # decimal coordinates: the rounding of R + Q(p - R) (about 1e-16 |R|) must stay below the mesh
+    # constructor's absolute 1e-12 alignment tolerance (C14-abs-tolerance); dyadic cases are exact
+    restrict_ref = has_subs and base["regime"] != "exact"
+    if restrict_ref and refkind == "far":
+        refkind = "near"
+    if ktype is None:
+        ktype, k, refkind = gen_ktype(rng, k, has_subs, refkind)
     c["k_type"] = ktype
     ref = gen_ref(rng, base, refkind)
-    if has_subs and ref is not None and max(abs(fl(x)) for x in ref) > 40:
+    if restrict_ref and ref is not None and max(abs(fl(x)) for x in ref) > 40:
         ref = None
         refkind = "none"
     c.update(ref_repr=rng.choice(REPRS), k_bool=bool(ktype == "int" and k in (0, 1) and rng.random() < 0.5),
@@ -297,6 +309,23 @@ def generate(rng, tier):
         for (a, b) in itertools.permutations(eff_dims(base), 2):
             cases.append(make_case(rng, base, "field", rng.random() < 0.5, a, b, rng.choice([1, -1, 3, 2]),
                                    rng.choice(refkinds), "perm"))
+    # directed: very large counts on meshes WITH subregions (k and k % 4 are the same turn: same
+    # acceptance, identical region / mesh / subregions / field), far reference points included
+    for bi in range(3 if tier == "quick" else 20):
+        base = gen_base(rng, tier, regime="exact", with_subs=True, nd=rng.choice([2, 3]))
+        if not base["subs"]:
+            continue
+        dims = eff_dims(base)
+        for k in BIG_K:
+            a, b = rng.sample(dims, 2)
+            refkind = rng.choice(["none", "far", "near", "far"])
+            inplace = rng.random() < 0.5
+            kt = rng.choice([kt_ for kt_ in ["int", "int", "int64", "uint64", "int16", "uint16", "int32"] if fits(kt_, k)])
+            for level in ("field", "mesh", "region"):
+                cc = make_case(rng, base, level, inplace if level != "mesh" else not inplace, a, b, k, refkind,
+                               "perm", ktype=kt)
+                cc["directed"] = "big-k"
+                cases.append(cc)
     # rejected calls: equal axes, unknown axis, reference point of the wrong length
     for _ in range(24 if tier == "quick" else 120):
         base = gen_base(rng, tier)
@@ -455,6 +484,12 @@ def mesh_of(o, level):
 
 
 # --- tolerant comparison of observables (geometry within tol, everything else exact)
+def geom_tol(c, scale):
+    """Region.rotate90 uses the exact quarter-turn table: no error in the exact regime (dyadic / integer
+    coordinates), a few ulps of the coordinate scale in the scale regime (independent of k)"""
+    return F(0) if c["regime"] == "exact" else F(1, 10 ** 13) * scale
+
+
 def close_l(a, b, tol):
     return len(a) == len(b) and all(abs(x - y) <= tol for x, y in zip(a, b))
 
@@ -514,7 +549,7 @@ def oracle_forward(c, level, o0, o1, viol):
     odd = k % 2 == 1
     R = [F(x) for x in c["ref"]] if c["ref"] is not None else [(l + h) / 2 for l, h in zip(r0["pmin"], r0["pmax"])]
     scale = max([abs(x) for x in r0["pmin"] + r0["pmax"] + R])
-    tol = (1 + abs(k)) * F(1, 10 ** 13) * scale
+    tol = geom_tol(c, scale)
 
     def swapped(l):
         l = list(l)
@@ -619,6 +654,11 @@ def run_case(c):
         viol.append("copy-leaves-original")
     if st_c != st_i:
         viol.append("inplace-eq-copy-acceptance")
+    if not c.get("k_bad"):
+        # k and k % 4 are the same turn: same acceptance, whatever the arguments
+        st_m = attempt(lambda: call(build(c), c, c["inplace"], k=k % 4))[0]
+        if (st_m == "ok") != (st == "ok"):
+            viol.append("k-mod-4-acceptance")
     if c.get("k_bad") and (st_c == "ok" or st_i == "ok"):
         viol.append("non-integer-k-accepted")
     if st != "ok":
@@ -641,7 +681,7 @@ def run_case(c):
             r0 = region_of(o0, level)
             R = [F(x) for x in c["ref"]] if c["ref"] is not None else None
             scale = max([abs(x) for x in r0["pmin"] + r0["pmax"]] + ([abs(x) for x in R] if R else []))
-            tol = (1 + abs(k)) * F(1, 10 ** 13) * scale
+            tol = geom_tol(c, scale)
             # in-place == copy, same object returned
             if st_c == "ok" and st_i == "ok":
                 oc, oi = observe(res_c, level), observe(src_ip, level)
@@ -651,8 +691,8 @@ def run_case(c):
                     viol.append("inplace-eq-copy")
                 # k and k mod 4 agree
                 st4, r4 = attempt(lambda: call(build(c), c, False, k=k % 4))
-                if st4 != "ok" or not obs_close(oc, observe(r4, level), level, 2 * tol):
-                    viol.append("k-mod-4")
+                if st4 != "ok" or not obs_close(oc, observe(r4, level), level, 0):
+                    viol.append("k-mod-4")         # k and k % 4 select the same table entry: identical
                 # the turn followed by its reverse, and four quarter turns, are the identity
                 refc = dict(c)
                 if c["ref"] is None:
@@ -662,7 +702,7 @@ def run_case(c):
                     viol.append("turn-then-reverse-identity")
                 x = build(c)
                 ok4 = True
-                tol1 = 2 * F(1, 10 ** 13) * scale
+                tol1 = tol
                 for _ in range(4):
                     s4, x = attempt(lambda: call(x, c, False, k=1))
                     if s4 != "ok":
@@ -683,7 +723,7 @@ def run_case(c):
 
     # ---- Gallina encoding
     r0 = region_of(o0, level)
-    head = (f'{g.b(c["inplace"])} {g.ql(r0["pmin"])} {g.ql(r0["pmax"])} {g.sl(r0["dims"])} {g.sl(r0["units"])}')
+    head = (f'{g.b(c["regime"] == "exact")} {g.b(c["inplace"])} {g.ql(r0["pmin"])} {g.ql(r0["pmax"])} {g.sl(r0["dims"])} {g.sl(r0["units"])}')
     tail = (f'{g.s(c["a"])} {g.s(c["b"])} {g.z(k)} {g.opt(c["ref"], g.ql)}')
 
     def enc_region(o):
@@ -743,6 +783,9 @@ def stats(records):
         out["default_reference"] += int(c["ref"] is None)
         kt = c.get("k_type", "int")
         out["numpy_k"] = out.get("numpy_k", 0) + int(kt != "int")
+        out["directed_big_k"] = out.get("directed_big_k", 0) + int(c.get("directed") == "big-k")
+        out["big_k_with_subregions"] = out.get("big_k_with_subregions", 0) + int(
+            abs(c["k"]) >= 250 and bool(c["subs"]) and c["level"] != "region")
         out["k_beyond_2^31"] = out.get("k_beyond_2^31", 0) + int(abs(c["k"]) >= 2 ** 31)
         out["non_integer_k"] = out.get("non_integer_k", 0) + int(bool(c.get("k_bad")))
         out["relayout"] = out.get("relayout", 0) + int(c["level"] == "field" and bool(c.get("layout_vals") or c.get("layout_valid")))
